@@ -355,7 +355,7 @@ func (x *Exec) returnStmt(st *State, s *ast.ReturnStmt) *Flow {
 		for _, r := range x.results {
 			vals = append(vals, st.vars[r])
 		}
-	case len(s.Results) == 1 && len(x.results) > 1:
+	case len(s.Results) == 1 && x.sig != nil && x.sig.Results().Len() > 1:
 		vals = x.multi(st, s.Results[0])
 	default:
 		for i, r := range s.Results {
